@@ -63,12 +63,13 @@ fn run_case(dir: &Path, c: &Case) -> Result<Vec<&'static str>, (String, String)>
         match a {
             Act::Wrq(j) => {
                 let j = *j as usize % 3;
-                let settled = last_accept.map(|t| t.elapsed() >= Duration::from_millis(400)).unwrap_or(false);
+                // the earlier worker's file is observed BEFORE the duplicate is sent: whatever the listener then sees includes it
+                let settled = last_accept.map(|t| t.elapsed() >= Duration::from_millis(400)).unwrap_or(false) && recv.join(name).exists();
                 // drop stale datagrams of an earlier transfer of this endpoint
                 let _ = endpoints[j].drain(Duration::from_millis(1));
                 match wclient::start(&endpoints[j], srv.addr, true, name, &opts, Duration::from_millis(1500)) {
                     Start::Accepted { neg, .. } => {
-                        if !c.overwrite && settled && recv.join(name).exists() {
+                        if !c.overwrite && settled {
                             // the earlier worker created the file long ago: without --overwrite this request names an existing file
                             return Err(("duplicate-accepted-although-file-exists".into(), format!("WRQ #{} for {} was accepted without --overwrite although an upload accepted {:?} earlier has created the file", i, name, last_accept.map(|t| t.elapsed()))));
                         }
